@@ -325,9 +325,11 @@ func (w *World) makeDialled(idx int, network string) (net.Conn, error) {
 		la, ra = &net.UnixAddr{Name: "", Net: "unix"}, &net.UnixAddr{Name: "/tmp/remote.sock", Net: "unix"}
 	} else {
 		local = &unix.SockaddrInet4{Port: 50000 + idx, Addr: [4]byte{127, 0, 0, 1}}
-		remote = &unix.SockaddrInet4{Port: 7000 + idx, Addr: [4]byte{192, 0, 2, byte(idx)}}
+		rt := w.dialAddr(idx).(*net.TCPAddr)
+		r4 := rt.IP.To4()
+		remote = &unix.SockaddrInet4{Port: rt.Port, Addr: [4]byte{r4[0], r4[1], r4[2], r4[3]}}
 		la = &net.TCPAddr{IP: net.IPv4(127, 0, 0, 1), Port: 50000 + idx}
-		ra = &net.TCPAddr{IP: net.IPv4(192, 0, 2, byte(idx)), Port: 7000 + idx}
+		ra = rt
 	}
 	fd, app, remoteEnd := w.k.HarnessPair(isUnix, local, remote)
 	ps.connected, ps.cli, ps.srv = true, remoteEnd, app
@@ -349,6 +351,11 @@ func (w *World) dialAddr(idx int) net.Addr {
 	if w.p.Cfg.Network == "unix" {
 		return &net.UnixAddr{Name: "/tmp/remote.sock", Net: "unix"}
 	}
+	if j := w.p.Conns[idx].AddrOf - 1; j >= 0 && j < idx && w.p.Cfg.Network == "tcp" {
+		// same address (as a string) as the accepted peer j, in the 16-byte form
+		// net.IPv4 produces
+		return &net.TCPAddr{IP: net.IPv4(10, 0, byte(j>>8), byte(j)), Port: 40000 + j}
+	}
 	return &net.TCPAddr{IP: net.IPv4(192, 0, 2, byte(idx)), Port: 7000 + idx}
 }
 
@@ -365,6 +372,11 @@ func (w *World) userRegister(ui int, op *UserOp) {
 	ps := w.peers[idx]
 	ps.dialAsked = true
 	before := w.engState()
+	if before != stRunning {
+		// while the engine is still registering its loops the balancer works on a
+		// growing list: such a connection says nothing about the policy
+		ps.regOutsideRunning = true
+	}
 	ctx := context.Background()
 	var ch <-chan gnet.RegisteredResult
 	var err error
